@@ -37,7 +37,7 @@ def builtin_name(I, name):
     if name in ("int", "bool", "float", "str", "bytes", "bytearray", "memoryview", "list", "dict", "set", "tuple", "object", "type", "frozenset"):
         return VType(name)
     if name in ("len", "sum", "min", "max", "any", "all", "isinstance", "range", "round", "sorted", "filter", "print", "hex", "abs",
-                "enumerate", "zip", "getattr", "setattr", "repr", "exit", "iter", "next", "reversed", "issubclass", "hasattr", "id", "map", "callable", "ord", "chr"):
+                "enumerate", "zip", "getattr", "setattr", "repr", "exit", "iter", "next", "reversed", "issubclass", "hasattr", "id", "map", "callable", "ord", "chr", "divmod"):
         return VBuiltin(name)
     if name in I.spec_builtins:
         return VBuiltin("spec." + name)
@@ -519,6 +519,11 @@ def b_zip(I, fv, args, kw):
     return I.new_list([VTuple(list(t)) for t in zip(*ls)])
 
 
+def b_divmod(I, fv, args, kw):
+    a, b = I.resolve(args[0]), I.resolve(args[1])
+    return VTuple([ops.binop(I, ast.FloorDiv(), a, b), ops.binop(I, ast.Mod(), a, b)])
+
+
 def b_abs(I, fv, args, kw):
     v = I.resolve(args[0])
     neg = ops.compare(I, ast.Lt(), v, mkint(0))
@@ -554,7 +559,7 @@ def b_namedtuple(I, fv, args, kw):
 _TABLE = {
     "len": b_len, "sum": b_sum, "min": b_minmax, "max": b_minmax, "any": b_anyall, "all": b_anyall,
     "isinstance": b_isinstance, "range": b_range, "round": b_round, "filter": b_filter, "sorted": b_sorted,
-    "getattr": b_getattr, "enumerate": b_enumerate, "zip": b_zip, "abs": b_abs, "hex": b_hex, "repr": b_repr, "ord": b_ord, "chr": b_chr,
+    "getattr": b_getattr, "enumerate": b_enumerate, "zip": b_zip, "abs": b_abs, "hex": b_hex, "repr": b_repr, "ord": b_ord, "chr": b_chr, "divmod": b_divmod,
     "print": b_print, "collections.namedtuple": b_namedtuple,
 }
 
@@ -705,6 +710,19 @@ def m_bytes(I, fv, args, kw):
         return I.opaque_str("hex", vb.key())
     if name == "tobytes":
         return vb.with_kind("bytes")
+    if name == "join":
+        parts = I.iterate(args[0])
+        out = None
+        for k_, p_ in enumerate(parts):
+            p_ = I.resolve(p_)
+            if not isinstance(p_, VBytes):
+                I.raise_py("builtins.TypeError", "sequence item: expected a bytes-like object")
+            if k_ and vb.length() != 0:
+                out = concat(out, vb, "bytes")
+            out = p_.with_kind("bytes") if out is None else concat(out, p_, "bytes")
+        if isinstance(vb.length(), int) or not parts or len(parts) == 1:
+            return out if out is not None else VBytes([], vb.kind if vb.kind != "memoryview" else "bytes")
+        raise Unsupported("join with a separator of symbolic length")
     if name == "append":
         raise Unsupported("bytearray.append must be a statement on a name")
     if name == "find":
